@@ -288,6 +288,7 @@ fn make_scenario(seed: u64, part: &str, index: u64) -> (Scenario, Vec<MOp>) {
             }
             Op::Idle { ms } => mops.push(MOp::Q(Op::Idle { ms: (*ms).min(3) })),
             Op::Assert { c } => mops.push(MOp::AssertExtra { c: *c }),
+            Op::Reload => mops.push(MOp::KbMutate { kind: 2, q: 0 }),
             Op::Drop { .. } => mops.push(MOp::Q(op.clone())),
         }
     }
